@@ -88,6 +88,13 @@ class UnmanagedBSE(ManagedBSE):
 
     def tv(s, st, v, name):
         if v == 'zero': return dur(0)
+        if v == 'sub' and f'ns_{name}' in (s.cfg.get('sub_values') or {}):
+            return Agg('Duration', [I(0), I(int(s.cfg['sub_values'][f'ns_{name}']), 32)])        # concrete re-execution of a replayed trace
+        if v == 'sub':
+            # a positive duration below one second (symbolic nanoseconds): truncating accessors (as_millis, as_secs, ...) differ from as_nanos here
+            n = z3.BitVec(f'ns_{name}', 32); st.assume(z3.And(z3.UGT(n, 0), z3.ULT(n, 1000000000)))
+            st.gset('sub_durs', st.gget('sub_durs', ()) + (f'ns_{name}',))
+            return Agg('Duration', [I(0), n])
         x = z3.BitVec(f'dur_{name}', 64); st.assume(z3.UGT(x, 0)); return dur(x)
 
     # ------------------------------------------------------------- actions
@@ -109,6 +116,7 @@ class UnmanagedBSE(ManagedBSE):
                 for i, v in enumerate(s.cfg['get_variants']): acts.append(('uget', t, i))
             if 'add' in roles and nadds < s.cfg['max_adds'] and L['adds'] < s.cfg.get('max_adds_task', 99):
                 for i, v in enumerate(s.cfg['add_variants']): acts.append(('uadd', t, i))
+            if 'close' in roles and L.get('closes', 0) < 1: acts.append(('tclose', t))      # a second closer: close() called by a task thread
             if L['objs']:
                 if 'drop' in roles: acts.append(('drop', t, 0))
                 if s.cfg['take'] and 'take' in roles: acts.append(('take', t, 0))
@@ -118,7 +126,7 @@ class UnmanagedBSE(ManagedBSE):
         return acts
 
     def thread_of(s, a):
-        if a[0] in ('uget', 'uadd', 'poll', 'cancel', 'drop', 'take', 'step'): return a[1]
+        if a[0] in ('uget', 'uadd', 'poll', 'cancel', 'drop', 'take', 'step', 'tclose'): return a[1]
         return 'C'
 
     # ------------------------------------------------------------- operations
@@ -131,6 +139,7 @@ class UnmanagedBSE(ManagedBSE):
             L['gets'] += 1; L['cur_after_close'] = ac; L['cur_close_started'] = cs
             # the timeout that governs this call: 'try' (never waits), None, 'zero' or 'pos'
             L['cur_tv'] = 'try' if name in ('try_get', 'try_remove') else (s.cfg['config_timeout'] if name in ('get', 'remove') else v[1])
+            if L['cur_tv'] == 'sub': L['cur_tv'] = 'pos'       # the oracles only distinguish no / zero / positive timeout
             if name in ('try_get', 'try_remove'):
                 s.set_op(st, t, a, 'sync_get', variant=name)
                 M.push_mir(st, th, s.U('::' + name), [Ref(proot)]); return [st]
@@ -176,6 +185,9 @@ class UnmanagedBSE(ManagedBSE):
                 s.set_op(st, t, a, 'taking', oid=oid)
                 M.push_mir(st, th, s.U('::take'), [obj])
             return [st]
+        if kind == 'tclose':
+            L['closes'] = L.get('closes', 0) + 1; st.gset('close_started', True)
+            s.set_op(st, t, a, 'simple'); M.push_mir(st, th, s.U('::close'), [Ref(proot)]); return [st]
         st.threads['C'].local['nctl'] += 1
         if kind == 'status':
             s.set_op(st, t, a, 'simple'); M.push_mir(st, th, s.U('::status'), [Ref(proot)])
@@ -247,7 +259,7 @@ class UnmanagedBSE(ManagedBSE):
             s.W.env.g_obj(st, oid, handed='+1'); st.logev('handed', oid, 'take')
             s.set_op(st, t, a, 'dropping', res=('ok', 'taken'), oid=oid); s.M.start_drop(st, th, [result[1]]); return [st]
         if phase == 'simple':
-            if a[0] == 'close' and result[0] == 'ok': st.gset('closed_ret', True)
+            if a[0] in ('close', 'tclose') and result[0] == 'ok': st.gset('closed_ret', True)
             return s.end_op(st, t, a, result)
         raise InternalError('op phase ' + phase)
 
